@@ -161,6 +161,9 @@ class OutgoingBallsHandler(BallDeviceStateHandler):
             # mark the ball as arrived before we yield. otherwise, the source might still run into its
             # ball_missing_timeout and count the ball a second time.
             incoming_skipping_ball.ball_arrived()
+            # also confirm our incoming ball at the target when we got here by timeout. otherwise, it would stay in the
+            # list of the target and catch the confirmation (e.g. playfield switch hit) of a later eject.
+            incoming_ball_at_target.ball_arrived()
             await self._handle_eject_success(eject_request)
             if add_ball_to_target:
                 if self.ball_device.available_balls > 0:
